@@ -275,7 +275,11 @@ CHECKS["C02"] = dict(
           "time): points = Send entry, Send after the quit check before the enqueue, backend writer after taking a request, backend "
           "writer with the encoded request in hand before the hand-over to the sent queue, backend reader before pairing a reply, "
           "connection shutdown before / after the final drain, client-facing writer before waiting; faults = backend drops the "
-          "connection (FIN / RST), backend stops and restarts, OnSvcHostRemove(host), OnSvcAllHostReplace, proxy Stop, none; hold 0..30 ms. "
+          "connection (FIN / RST), backend stops and restarts, OnSvcHostRemove(host), OnSvcAllHostReplace, proxy Stop, none; hold 0..30 ms; "
+          "a quarter of the cases run on half-migrated slots so that every command is redirected by ASK (ASKING+command pairs). part "
+          "directed-ask: half-migrated slots, 2..4 connections x 10..60 requests, one directive that makes a backend connection quit and "
+          "a second one that holds that client for 5..50 ms in its shutdown window (before / after the final drain) while redirections "
+          "keep arriving for it. "
           "part directed-grid enumerates 8 points x 6 faults x hit index {1,2,3,5,8} x hold {2,20 ms} = 480 schedules. part stress (no "
           "hooks): 2..12 connections x 2000..20000 windowed requests while node connections are killed after a random number of commands "
           "(optionally mid-reply / RST) again and again. Oracle: every request written on a connection the harness keeps open receives "
@@ -287,6 +291,7 @@ CHECKS["C02"] = dict(
                  "when the proxy itself closes the client connection (proxy Stop) no further reply is owed"],
     parts=[
         dict(name="directed", test="TestDirected", kind="rapid", checks={"quick": 150, "thorough": 3000}, shards=16, timeout={"quick": 900, "thorough": 3400}, shrinktime="60s", gomaxprocs=4, crash_is_violation=True),
+        dict(name="directed-ask", test="TestDirectedAsk", kind="rapid", checks={"quick": 80, "thorough": 3000}, shards=16, timeout={"quick": 900, "thorough": 3400}, shrinktime="60s", gomaxprocs=4, crash_is_violation=True, records=["directed", "directed-ask"]),
         dict(name="directed-grid", test="TestDirectedGrid", kind="plain", shards=16, timeout={"quick": 900, "thorough": 1800}, gomaxprocs=4, crash_is_violation=True, records=["directed", "directed-grid"]),
         dict(name="stress", test="TestStress", kind="rapid", checks={"quick": 6, "thorough": 100}, shards=8, timeout={"quick": 900, "thorough": 3400}, shrinktime="30s", crash_is_violation=True),
     ],
@@ -402,7 +407,7 @@ CHECKS["C05"] = dict(
     assumptions=["the idle time-out (10 min) is larger than every generated gap: the idle cut-off itself is not exercised",
                  "abortive closes (RST with unread data) are not generated: TCP itself then drops data"],
     parts=[
-        dict(name="relay", test="TestRelay", kind="rapid", checks={"quick": 12, "thorough": 1200}, shards=16, timeout={"quick": 900, "thorough": 3400}, shrinktime="60s", gomaxprocs=4),
+        dict(name="relay", test="TestRelay", kind="rapid", checks={"quick": 10, "thorough": 1200}, shards=16, timeout={"quick": 900, "thorough": 3400}, shrinktime="60s", gomaxprocs=4),
     ],
 )
 
